@@ -6,6 +6,7 @@ import AcraModel.Wire.PgBind
 import AcraModel.Wire.MysqlColDef
 import AcraModel.Wire.MysqlExecute
 import AcraModel.Wire.PgDescribe
+import AcraModel.Typed.Row
 /-! Driver ops for C12 (wire formats). -/
 namespace Driver.C12
 open AcraModel AcraModel.Wire
@@ -301,6 +302,22 @@ def handle (op : String) (args : List String) : Option String :=
       let types ← parseNats types
       let b ← ofHex b
       pure (match My.decodeBinRow types b with | some r => "some " ++ showRow r | none => "none")
+  -- rows through the real decoder → encoder subscribers without any column setting
+  | "pg.chain", [fmts, s] => do
+      let fmts ← parseNats fmts
+      let s ← ofHex s
+      let r : Out Bytes := do
+        let (p, _) ← Pg.readDb s
+        let p' ← Pg.rewriteRow (fun _ d => Typed.pgChainNoSetting false d) fmts p
+        pure (Pg.marshal p')
+      pure (r.render hexOf)
+  | "my.chain", [proto, types, row] => do
+      let types ← parseNats types
+      let row ← ofHex row
+      if proto = "text" then
+        pure ((My.textRow (fun i v => Typed.myChainNoSetting false (types[i]?.getD 0) v) types.length row).render hexOf)
+      else
+        pure ((My.binRow (fun i v => Typed.myChainNoSetting true (types[i]?.getD 0) v) types row).render hexOf)
   -- PostgreSQL Parse
   | "pg.parse.fields", [b] => do
       let b ← ofHex b
